@@ -1,6 +1,8 @@
 package engine
 
 import (
+	"golang.org/x/tools/go/ssa"
+	"golang.org/x/tools/go/ssa/ssautil"
 	"crypto/sha1"
 	"encoding/json"
 	"flag"
@@ -116,9 +118,22 @@ func RunNative(harnessDir, pkgRel, pkgname string, cases []NativeCase) ([]Native
 	casesPath, resPath := filepath.Join(tmp, "cases.json"), filepath.Join(tmp, "results.json")
 	cb, _ := json.Marshal(cases)
 	os.WriteFile(casesPath, cb, 0644)
-	cmd := exec.Command("go", "test", "-vet=off", "-count=1", "-timeout", "20m", "-overlay", ovPath, "-run", "^TestVerifReplay$", "./"+pkgRel)
+	// compile the test binary, then run it ourselves: the package directory of
+	// a purely virtual (overlay-only) package does not exist, and go test would
+	// chdir into it
+	bin := filepath.Join(tmp, "replay.test")
+	build := exec.Command("go", "test", "-c", "-vet=off", "-overlay", ovPath, "-o", bin, "./"+pkgRel)
+	build.Dir = RepoDir
+	build.Env = append(os.Environ(), "GOFLAGS=-mod=mod", "GOPROXY=off", "GOTOOLCHAIN=local")
+	if bout, berr := build.CombinedOutput(); berr != nil {
+		return nil, fmt.Errorf("native build failed: %v\n%s", berr, bout)
+	}
+	cmd := exec.Command(bin, "-test.run", "^TestVerifReplay$", "-test.count=1", "-test.timeout=20m")
 	cmd.Dir = RepoDir
-	cmd.Env = append(os.Environ(), "VRT_CASES="+casesPath, "VRT_RESULTS="+resPath, "GOFLAGS=-mod=mod", "GOPROXY=off", "GOTOOLCHAIN=local")
+	if st, serr := os.Stat(filepath.Join(RepoDir, pkgRel)); serr == nil && st.IsDir() {
+		cmd.Dir = filepath.Join(RepoDir, pkgRel)
+	}
+	cmd.Env = append(os.Environ(), "VRT_CASES="+casesPath, "VRT_RESULTS="+resPath)
 	out, err := cmd.CombinedOutput()
 	rb, rerr := os.ReadFile(resPath)
 	if rerr != nil {
@@ -132,6 +147,51 @@ func RunNative(harnessDir, pkgRel, pkgname string, cases []NativeCase) ([]Native
 		return nil, fmt.Errorf("native run returned %d results for %d cases", len(res), len(cases))
 	}
 	return res, nil
+}
+
+var extraCoverage = map[string]interface{}{}
+
+// staticGlobalStores lists SSA store instructions whose address derives from a
+// package-level variable, in functions of the repository other than package
+// initialisers (supporting evidence for C18: schedule-independent).
+func staticGlobalStores(prog *Program) []string {
+	var out []string
+	for fn := range ssautilAllFunctions(prog) {
+		if fn.Pkg == nil || !strings.HasPrefix(fn.Pkg.Pkg.Path(), ModPath) || strings.Contains(fn.Pkg.Pkg.Path(), "internal/zz") {
+			continue
+		}
+		if fn.Synthetic != "" || fn.Name() == "init" || strings.HasPrefix(fn.Name(), "init#") {
+			continue
+		}
+		if pos := prog.Fset.Position(fn.Pos()); strings.HasSuffix(pos.Filename, "_test.go") || strings.Contains(pos.Filename, "zz_verif") {
+			continue
+		}
+		for _, b := range fn.Blocks {
+			for _, ins := range b.Instrs {
+				st, ok := ins.(*ssa.Store)
+				if !ok {
+					continue
+				}
+				var root ssa.Value = st.Addr
+				for depth := 0; depth < 8; depth++ {
+					switch v := root.(type) {
+					case *ssa.FieldAddr:
+						root = v.X
+						continue
+					case *ssa.IndexAddr:
+						root = v.X
+						continue
+					}
+					break
+				}
+				if g, ok := root.(*ssa.Global); ok {
+					out = append(out, fmt.Sprintf("%s in %s", g.String(), fn.String()))
+				}
+			}
+		}
+	}
+	sort.Strings(out)
+	return uniqStrings(out)
 }
 
 type harnessReport struct {
@@ -209,6 +269,7 @@ func CmdCheck(args []string) int {
 	}
 	sort.Strings(pats)
 	var engineErrors []string
+	extraCoverage = map[string]interface{}{}
 	prog, err := Load(*hdir, pats)
 	if err != nil {
 		// A tree that does not load is not evidence of a violation.
@@ -512,6 +573,13 @@ func CmdCheck(args []string) int {
 			}
 		}
 	}
+	if prop == "C18" {
+		gs := staticGlobalStores(prog)
+		extraCoverage["static_global_stores_outside_init"] = gs
+		for _, g := range gs {
+			fmt.Fprintf(os.Stderr, "INFO static scan: store to package-level variable outside init: %s\n", g)
+		}
+	}
 	sort.Strings(knownLines)
 	knownLines = uniqStrings(knownLines)
 	for _, l := range knownLines {
@@ -641,6 +709,9 @@ func writeEvidence(prop string, tier int, seed int64, reports []harnessReport, f
 		"known_findings_confirmed":      knownLines,
 		"encoding":                      "bit-vectors with Go wrap-around semantics, regenerated from /repo's working tree by go/packages+go/ssa on this run",
 	}
+	for k, v := range extraCoverage {
+		cov[k] = v
+	}
 	ev := map[string]interface{}{
 		"property_id": prop,
 		"tier":        []string{"quick", "thorough"}[tier],
@@ -760,3 +831,5 @@ func CmdNative(args []string) int {
 	fmt.Println(string(b))
 	return 0
 }
+
+func ssautilAllFunctions(prog *Program) map[*ssa.Function]bool { return ssautil.AllFunctions(prog.Prog) }
